@@ -3,7 +3,7 @@
    terminal consumes at least one character, and neither fuel (lex_all, match_trivia) can run out.
    What is not: absence of panics / hangs in the Rust code (explored by harness/h10 on the real
    lexer, parser and formatter; never proved). *)
-From Syntax Require Import Lexer LexerProofs TokenStream TokenStreamProofs.
+From Syntax Require Import Lexer LexerProofs Green TokenStream TokenStreamProofs Recovery RecoveryProofs.
 
 (* lex_all never runs out of fuel; its result is ts ++ [EndOfFile]; no terminal of ts is
    EndOfFile and each has a non-empty token text; every trivium anywhere is non-empty. *)
@@ -34,6 +34,86 @@ Theorem C09_diag_in_file : forall (src : str) (ops : list op), ops_ok src ops = 
              (p_diags (finish_file src (run_ops src ops)))).
 Proof. exact diag_in_file. Qed.
 
+(* The recovery loops of parser.rs - parse_list (item / statement / attribute / macro-rule lists),
+   parse_separated_list_inner (every separated list, with its missing-separator and
+   forbid_trailing_separator paths) and skip_until - over the token-plumbing model, for ANY
+   element parser [try_parse] that meets the contract the real ones are written to: it keeps the
+   plumbing invariant [RInv] and never un-reads; Ok means it consumed; DoNothing means it consumed
+   (needed only when the loop goes on); and should_stop holds at EndOfFile.  Measure: [unread] =
+   characters in the look-ahead or not yet lexed.  Every iteration either ends the loop or strictly
+   decreases the measure, so fuel = unread + 1 is never exhausted: the loops terminate within
+   |unread text| + 1 iterations for every token sequence.
+   Which hypothesis is proved and which is checked per input: should_stop at EndOfFile is proved
+   for all 39 stop predicates of parser.rs (C09_recovery_stop_sites); "keeps RInv, never
+   un-reads" is proved for every element parser that acts through the plumbing operations
+   (C09_recovery_element_ops; their side conditions are checked through the op log); "Ok / DoNothing
+   consumed" are facts about ~60 grammar functions: checked on every iteration of the real loops
+   through the hook's loop events (Corr.v check_loops), not proved. *)
+Theorem C09_recovery_progress :
+  forall (src : str) (try_parse : pstate -> tpr * pstate) (should_stop : tkind -> bool)
+         (skipped_tag missing_tag : N) (separator : tkind) (forbid_trailing : option N),
+  should_stop TEndOfFile = true -> separator <> TEndOfFile ->
+  (forall s, RInv src s -> RInv src (snd (try_parse s))) ->
+  (forall s, RInv src s -> (unread (snd (try_parse s)) <= unread s)%nat) ->
+  (forall s, RInv src s -> fst (try_parse s) = POk -> (unread (snd (try_parse s)) < unread s)%nat) ->
+  (forall s, RInv src s -> fst (try_parse s) = PDoNothing ->
+     should_stop (peek_kind (snd (try_parse s))) = false ->
+     (unread (snd (try_parse s)) < unread s)%nat) ->
+  forall s, RInv src s ->
+  (let r := parse_list_iter try_parse should_stop skipped_tag s in
+   RInv src (snd r) /\ (fst r = true -> (unread (snd r) < unread s)%nat))
+  /\ fst (parse_list try_parse should_stop skipped_tag s) = true
+  /\ (forall nonempty,
+      let r := sep_list_iter src try_parse should_stop skipped_tag separator missing_tag
+                 forbid_trailing nonempty s in
+      RInv src (snd r) /\ (fst (fst r) = true -> (unread (snd r) < unread s)%nat))
+  /\ fst (parse_separated_list src try_parse should_stop skipped_tag separator missing_tag
+            forbid_trailing s) = true
+  /\ (should_stop (peek_kind s) = false -> (unread (snd (take_raw s)) < unread s)%nat)
+  /\ should_stop (peek_kind (snd (skip_until_go (S (unread s)) should_stop None s))) = true.
+Proof. exact recovery_progress. Qed.
+
+(* every stop predicate the three loops are called with in parser.rs holds at EndOfFile, and no
+   separator is EndOfFile *)
+Theorem C09_recovery_stop_sites :
+  Forall (fun site => snd site TEndOfFile = true) stop_sites
+  /\ Forall (fun k => k <> TEndOfFile) separator_kinds.
+Proof. exact (conj stop_sites_eof separators_not_eof). Qed.
+
+(* element parsers made of plumbing operations keep RInv and never un-read; the loops are entered
+   in RInv states (the initial state, and whatever admissible operations lead to) *)
+Theorem C09_recovery_element_ops : forall (src : str) res_of ops_of,
+  (forall s, RInv src s -> ops_ok2_from src s (ops_of s) = true) ->
+  (forall s, RInv src s -> RInv src (snd (ops_element src res_of ops_of s)))
+  /\ (forall s, RInv src s -> (unread (snd (ops_element src res_of ops_of s)) <= unread s)%nat).
+Proof. exact ops_element_inv_mono. Qed.
+Theorem C09_recovery_entry : forall (src : str) (ops : list op),
+  ops_ok2_from src (parser_new src) ops = true -> RInv src (run_ops src ops).
+Proof. exact rinv_reachable. Qed.
+
+(* non-vacuity on a garbled input: the element parser "an item is the keyword fn" meets the
+   contract, and the item list over `+ ] fn ) fn ; }  x` skips four tokens, takes two and stops
+   at the `}` having consumed 14 of the 18 characters *)
+Example C09_recovery_example :
+  let src := str_of_string "+ ] fn ) fn ; }  x" in
+  let stop := is_of_kind [k_rbrace] in
+  ((forall s, RInv src s -> RInv src (snd (fn_element src s)))
+   /\ (forall s, RInv src s -> (unread (snd (fn_element src s)) <= unread s)%nat)
+   /\ (forall s, RInv src s -> fst (fn_element src s) = POk ->
+         (unread (snd (fn_element src s)) < unread s)%nat)
+   /\ (forall s, RInv src s -> fst (fn_element src s) = PDoNothing ->
+         stop (peek_kind (snd (fn_element src s))) = false ->
+         (unread (snd (fn_element src s)) < unread s)%nat))
+  /\ RInv src (parser_new src) /\ stop TEndOfFile = true
+  /\ let r := parse_list (fn_element src) stop 7%N (parser_new src) in
+     fst r = true /\ peek_kind (snd r) = TRBrace /\ unread (parser_new src) = 18%nat
+     /\ unread (snd r) = 4%nat /\ length (p_emitted (snd r)) = 2%nat.
+Proof.
+  cbv zeta. split; [|split; [apply parser_new_rinv|split; [reflexivity|vm_compute; repeat split]]].
+  destruct (fn_element_contract (str_of_string "+ ] fn ) fn ; }  x")) as [A [B [C D]]].
+  split; [exact A|]. split; [exact B|]. split; [exact C|]. intros s. apply D.
+Qed.
+
 (* non-vacuity: garbage (NUL, form feed, lone CR, unterminated string) still ends in EndOfFile *)
 Example C09_example :
   let s := [0; 12; 13; 39; 97]%N in
@@ -43,3 +123,7 @@ Proof. vm_compute. reflexivity. Qed.
 Print Assumptions C09_lexer_total_progress.
 Print Assumptions C09_trivia_fuel_sufficient.
 Print Assumptions C09_diag_in_file.
+Print Assumptions C09_recovery_progress.
+Print Assumptions C09_recovery_stop_sites.
+Print Assumptions C09_recovery_element_ops.
+Print Assumptions C09_recovery_entry.
